@@ -14,6 +14,7 @@ a document file), so nothing of one case can leak into the next:
       F = $X      formula that depends on X
       Y: `from`   bystander with the same contents
       G = $Y      formula that does not depend on X
+      X, Y and their first view fields carry widget options
       if `vis`: X.visibleCol = U.N with display helper `$X.N`, and the same on X's first view field
   Z   X: Any (all universe values), H = $X   another table with a column of the same id
 
@@ -133,10 +134,19 @@ def build_base(inp):
   bundle.append(["AddTable", "Z", [col_def("X", "Any"), col_def("H", "Any", "$X")]])
   fill.append(["BulkAddRecord", "Z", [None] * len(Z_VALUES), {"X": copy.deepcopy(Z_VALUES)}])
   adapter.apply(eng, bundle + fill)
+  m = Meta(adapter.fetch_all(eng))
+  # widget options on X, on the bystander and on their first view fields (settings a type change may reset
+  # on X only)
+  opts = json.dumps({"alignment": "right"})
+  acts = []
+  for cid in ("X", "Y"):
+    ref = m.colref[("T", cid)]
+    acts.append(["UpdateRecord", "_grist_Tables_column", ref, {"widgetOptions": opts}])
+    acts.append(["UpdateRecord", "_grist_Views_section_field", m.fields_of(ref)[0], {"widgetOptions": opts}])
+  adapter.apply(eng, acts)
   if inp["two"]:
     adapter.apply(eng, [["AddReverseColumn", "T", "X"]])
   if inp["vis"]:
-    m = Meta(adapter.fetch_all(eng))
     x, n = m.colref[("T", "X")], m.colref[("U", "N")]
     field = m.fields_of(x)[0]
     adapter.apply(eng, [["UpdateRecord", "_grist_Tables_column", x, {"visibleCol": n}],
